@@ -199,12 +199,18 @@ impl Gen {
   fn simple_ty(&self, rng: &mut Rng, classes: &[(String, bool)]) -> Ty {
     match rng.below(28) {
       26 => {
-        let a = self.base_ty(rng, classes);
-        let r = self.base_ty(rng, classes);
+        // function type; its argument / result may themselves be unresolved long names
+        let unresolved = |rng: &mut Rng| Ty::Unresolved(format!("UnresolvedInsideAFunctionType{}", rng.below(1000)));
+        let a = if rng.chance(1, 4) { unresolved(rng) } else { self.base_ty(rng, classes) };
+        let r = if rng.chance(1, 4) { unresolved(rng) } else { self.base_ty(rng, classes) };
         return Ty::Fn(Box::new(a), Box::new(r));
       }
-      27 => {
-        return Ty::Unresolved(rng.pick(&["UnresolvedButVeryLongTypeNameOne", "AnotherUnresolvedLongTypeName", "Unresolved"]).to_string());
+      27 | 23 => {
+        return Ty::Unresolved(if rng.chance(1, 2) {
+          rng.pick(&["UnresolvedButVeryLongTypeNameOne", "AnotherUnresolvedLongTypeName", "Unresolved"]).to_string()
+        } else {
+          format!("UnresolvedAndUniqueTypeName{}", rng.below(100_000))
+        });
       }
       24 | 25 => {
         // generic struct applied to another class
@@ -213,7 +219,8 @@ impl Gen {
         if !generics.is_empty() && !plain.is_empty() {
           let g = rng.pick(&generics).0.clone();
           let a = rng.pick(&plain).0.clone();
-          return Ty::ClassArg(g, Box::new(Ty::Class(a, false)));
+          let arg = if rng.chance(1, 4) { Ty::Unresolved(format!("UnresolvedTypeArgument{}", rng.below(1000))) } else { Ty::Class(a, false) };
+          return Ty::ClassArg(g, Box::new(arg));
         }
       }
       _ => {}
@@ -546,6 +553,7 @@ impl Gen {
             let (fname, fty) = rng.pick(&fields).clone();
             let local = self.fresh_lower(rng, &taken);
             if local != fname {
+              let fname = if rng.chance(1, 12) { format!("{fname}MisspelledFieldName{}", rng.below(100_000)) } else { fname };
               s.push_str(&format!("    let {{ {fname} as {local} }} = this;\n"));
               scope.locals.push((local, fty));
             }
@@ -646,11 +654,14 @@ impl Gen {
       if !cands.is_empty() {
         let (c, f) = rng.pick(&cands).clone();
         let args: Vec<String> = f.params.iter().map(|(_, t)| self.gen_expr(rng, t, depth - 1, scope, visible)).collect();
+        // now and then a member name that exists nowhere (its only roots: this expression and
+        // the diagnostic about it)
+        let fname = if rng.chance(1, 30) { format!("{}MisspelledAndUnique{}", f.name, rng.below(100_000)) } else { f.name.clone() };
         if f.is_method {
           let recv = self.gen_expr(rng, &Ty::Class(c.name.clone(), false), depth - 1, scope, visible);
-          return format!("{recv}.{}({})", f.name, args.join(", "));
+          return format!("{recv}.{fname}({})", args.join(", "));
         } else {
-          return format!("{}.{}({})", c.name, f.name, args.join(", "));
+          return format!("{}.{fname}({})", c.name, args.join(", "));
         }
       }
     }
